@@ -52,7 +52,12 @@ DrdScaled == [
   gen_moment_size_x8 |-> <<1, 1>>,                        \* bytes * 8 = gates * word size (raw is the product reported by the driver)
   hdr_azimuth_resolution_spacing |-> <<1, 2>>,            \* degrees
   hdr_azimuth_indexing_mode |-> <<1, 100>>,               \* degrees; raw 0 = none (reported as -1)
-  hdr_radial_length |-> <<1, 1>>]                         \* bytes
+  hdr_radial_length |-> <<1, 1>>,                         \* bytes
+  rad_nyquist_velocity |-> <<1, 100>>,                    \* metres per second (ICD: scaled integer, precision 0.01)
+  (* Named deviation UnambiguousRangeUnscaled: the ICD types this field, like the Nyquist velocity, as a scaled integer
+     (kilometres, precision 0.1, range 115..511); the accessor applies NO scaling (raw 4660 reads as 4,660 km).  The table
+     records the code as built; this is a suspected defect outside the listed properties (C02 fixes the raw field only). *)
+  rad_unambiguous_range |-> <<1, 1>>]                     \* kilometres AS BUILT (ICD: raw / 10)
 
 VARIABLE call                                   \* <<accessor, raw>>: one use of an accessor on a decoded message
 Init == call \in {<<acc, r>> : acc \in AllPartial, r \in {0, 1, 2, 3, 4, 5, 7, 8, 16, 64, 255}}
